@@ -335,6 +335,7 @@ func main() {
 		extra["race_stress_per_interceptor"] = per.String()
 		cur, races, stalls, begun := "", 0, 0, 0
 		lostUpdates, uars, scen := 0, 0, 0
+		interferences := 0
 		reenters, reenterSeen := 0, map[string]bool{}
 		var vacuous []string
 		// findings of the conservation / use-after-release scenarios (cmd/c10race/conserve.go): one JSON object per line
@@ -349,6 +350,9 @@ func main() {
 			if kind == "lost-update" && v != nil {
 				detail = fmt.Sprintf("%v: %v = %v after the run, want %v (updates lost; no unsynchronised access is needed for this)\n%v",
 					v["scenario"], v["counter"], v["got"], v["want"], v["detail"])
+			}
+			if kind == "stream-interference" && v != nil {
+				detail = fmt.Sprintf("%v: %v\n%s", v["scenario"], v["what"], detail)
 			}
 			if kind == "use-after-release" && v != nil {
 				detail = fmt.Sprintf("%v: %v\n%s", v["scenario"], v["what"], detail)
@@ -379,6 +383,9 @@ func main() {
 				scenarioFinding(line, "C10RACE-LOSTUPDATE", "lost-update", &lostUpdates)
 			case strings.HasPrefix(line, "C10RACE-UAR "):
 				scenarioFinding(line, "C10RACE-UAR", "use-after-release", &uars)
+			case strings.HasPrefix(line, "C10RACE-ISOLATION "):
+				// round 5: a stream's downstream packets depend on what OTHER streams / interceptors did in parallel
+				scenarioFinding(line, "C10RACE-ISOLATION", "stream-interference", &interferences)
 			case strings.HasPrefix(line, "C10RACE-REENTER "):
 				// user code (callback / downstream writer / upstream reader) that called a public getter never returned
 				var v map[string]interface{}
@@ -422,6 +429,7 @@ func main() {
 		extra["conservation_and_release_scenarios_run"] = scen
 		extra["lost_update_findings"] = lostUpdates
 		extra["use_after_release_findings"] = uars
+		extra["stream_interference_findings"] = interferences
 		extra["callback_deadlock_findings"] = reenters
 		extra["reenter_scenarios_vacuous_for"] = vacuous
 		if err != nil && races == 0 && stalls == 0 {
